@@ -173,6 +173,11 @@ def run(ctx, R, tier):
     frame_source(F, R)
     seek_callers(F, R)
     end_rule(F, R)
+    end_after_step(F, R)
+    # 'given a decoder that keeps ahead of playback': the decoder thread keeps decoding until the sound is Stopped (not
+    # merely Stopping: a stop fade can be resumed), sleeps only when the ring is full, ends at the end of the data - the C10 rules
+    from . import c10
+    c10.run(ctx, R, tier)
     # read_commands siblings
     def reader_fn(owner):
         ob_ = F.body('<%s as sound::Sound>::on_start_processing' % owner)
@@ -312,3 +317,27 @@ def frame_source(F, R):
                 why = 'a frame is returned that does not come out of a decoded chunk: %s' % ret[:100]
     R.check(ok and {'zero', 'frame'} <= kinds, 'B.C09.frame', 'frame_at_index', why or 'outcomes %s' % sorted(kinds),
             detail={'outcomes': sorted(kinds)}, where=b.file)
+
+
+def end_after_step(F, R):
+    """The streaming sound notices the end of its data in the same output frame in which it consumed the last source frame,
+    as the static sound does (whose end test sits inside `update_position`, i.e. after the step): inside the per-frame loop
+    the `reached_end() && frame_consumer.is_empty()` test comes after the loop that pops source frames.  Tested before the
+    pops, the sound is still Playing after the callback in which a static sound of the same audio is already Stopped."""
+    b = F.body('<sound::streaming::sound::StreamingSound as sound::Sound>::process')
+    if not R.check(b is not None, 'B.C09.sib', 'anchor:end-after-step', 'StreamingSound::process not found'):
+        return
+    pops = [x for x, t in b.calls() if (callee_path(t) or '').endswith(('rtrb::Consumer::<T>::pop', 'rtrb::Consumer::<T>::read_chunk')) and b.in_loop(x)]
+    emp = [x for x, t in b.calls() if (callee_path(t) or '').endswith('rtrb::Consumer::<T>::is_empty') and b.in_loop(x)]
+    ok = False
+    if pops and len(emp) == 1:
+        outer = [l for l in b.loops() if emp[0] in l['blocks']]
+        if outer:
+            L = max(outer, key=lambda l: len(l['blocks']))
+            after_pop = set()
+            for p_ in pops:
+                after_pop |= b.reachable([p_], stop=[L['header']])
+            before = b.reachable([emp[0]], stop=[L['header']])
+            ok = emp[0] in after_pop and not (set(pops) & (before - {emp[0]}))
+    R.check(ok, 'B.C09.sib', 'end-after-step', 'in the per-frame loop of StreamingSound::process the end-of-data test does not come after the frames '
+            'of this step were popped: the streaming sound stops one output frame later than the static sound', detail='pop loop ≺ reached_end && is_empty', where=b.file)
